@@ -136,7 +136,7 @@ def run(ctx):
   ctx.model('MC_ITML', 'MC_ITML.cfg')
   rng = np.random.default_rng(ctx.seed + 11)
   rs = []
-  for i in range(16 if ctx.quick else 96):
+  for i in range(16 if ctx.quick else 384):
     rs.append(dict(supervised=bool(i % 2), n=5 if ctx.quick else 12, seed=int(rng.integers(1 << 30))))
   ctx.rule = ('random pair sets (both labels, non-collapsed) x priors {identity, covariance, random, SPD array} x gamma in '
               '{1/4, 1, 4, 64} x explicit / default bounds x {run to convergence with tol 1e-12, 1-5 iterations, prior '
